@@ -27,7 +27,8 @@ VERIF = os.path.normpath(os.path.join(HERE, ".."))
 LEAN_DIR = os.path.join(VERIF, "lean")
 REPO = os.environ.get("RPYC_REPO", "/repo")
 STD_AXIOMS = {"propext", "Classical.choice", "Quot.sound"}
-FORBIDDEN = re.compile(r"\bsorry\b|\badmit\b|^axiom\s|native_decide|bv_decide|implemented_by|\bunsafe\s|maxHeartbeats\s+0")
+FORBIDDEN = re.compile(r"\bsorry\b|\bsorryAx\b|\badmit\b|^\s*(?:@\[[^\]]*\]\s*)?(?:private\s+|protected\s+)?axiom\b"
+                       r"|native_decide|\+native\b|ofReduceBool|bv_decide|implemented_by|@\[\s*extern|\bunsafe\s|maxHeartbeats\s+0\s*(?:$|in\b)")
 
 AUDIT_TEMPLATE = """import Lean
 import %(module)s
@@ -131,7 +132,7 @@ def import_closure(module):
     seen, todo = {}, [module]
     while todo:
         m = todo.pop()
-        if m in seen or not m.startswith("RpycModel"):
+        if m in seen or not (m.startswith("RpycModel") or m.startswith("Driver")):
             continue
         path = os.path.join(LEAN_DIR, *m.split(".")) + ".lean"
         if not os.path.exists(path):
@@ -145,10 +146,28 @@ def import_closure(module):
     return sorted(seen.values())
 
 
-def grep_forbidden(module):
-    """forbidden tokens in the sources the property's theorem module depends on (its import closure)"""
+def driver_roots(drivers):
+    """Lean root modules of the given lean_exe targets (lakefile.toml)"""
+    roots = {}
+    try:
+        with open(os.path.join(LEAN_DIR, "lakefile.toml")) as f:
+            txt = f.read()
+        for m in re.finditer(r'name\s*=\s*"([^"]+)"\s*\n\s*root\s*=\s*"([^"]+)"', txt):
+            roots[m.group(1)] = m.group(2)
+    except OSError:
+        pass
+    return [roots[d] for d in drivers if d in roots]
+
+
+def grep_forbidden(module, drivers=()):
+    """forbidden tokens in the sources the property's theorem module depends on (its import closure) and in the
+    sources of the compiled drivers the correspondence runs (an @[implemented_by]/@[extern] there would make the
+    executed model differ from the proved one)"""
     hits = []
-    for p in import_closure(module):
+    files = set(import_closure(module))
+    for r in driver_roots(drivers):
+        files |= set(import_closure(r))
+    for p in sorted(files):
         with open(p) as f:
             src = strip_comments(f.read())
         for ln, line in enumerate(src.split("\n"), 1):
@@ -158,8 +177,9 @@ def grep_forbidden(module):
 
 
 def regenerate(ctx):
-    p = subprocess.run([sys.executable, os.path.join(HERE, "gen_consts.py")], stdout=subprocess.PIPE,
-                       stderr=subprocess.STDOUT, env=dict(os.environ, RPYC_REPO=REPO))
+    with _lock():        # the Gen files and gen_status.json are shared with concurrent checks and builds
+        p = subprocess.run([sys.executable, os.path.join(HERE, "gen_consts.py")], stdout=subprocess.PIPE,
+                           stderr=subprocess.STDOUT, env=dict(os.environ, RPYC_REPO=REPO))
     out = p.stdout.decode().strip()
     ctx.log(out.split("\n")[-1] if out else "gen_consts: (no output)")
     return p.returncode, out
@@ -203,16 +223,35 @@ def errors_to_theorems(build_out):
 
 def audit(ctx, module, ns):
     os.makedirs(os.path.join(LEAN_DIR, ".lake", "audit"), exist_ok=True)
-    path = os.path.join(LEAN_DIR, ".lake", "audit", ns.replace(".", "_") + ".lean")
+    path = os.path.join(LEAN_DIR, ".lake", "audit", "%s_%d.lean" % (ns.replace(".", "_"), os.getpid()))
     with open(path, "w") as f:
         f.write(AUDIT_TEMPLATE % dict(module=module, ns=ns))
-    with _lock():
-        p = subprocess.run(["lake", "env", "lean", path], cwd=LEAN_DIR, stdout=subprocess.PIPE, stderr=subprocess.STDOUT)
+    try:
+        with _lock():
+            p = subprocess.run(["lake", "env", "lean", path], cwd=LEAN_DIR, stdout=subprocess.PIPE, stderr=subprocess.STDOUT)
+    finally:
+        try:
+            os.unlink(path)
+        except OSError:
+            pass
     out = p.stdout.decode()
     thms = {}
     for m in re.finditer(r"THEOREM (\S+) AXIOMS \[(.*?)\]", out):
-        thms[m.group(1)] = [a.strip() for a in m.group(2).split(",") if a.strip()]
+        # compiler-generated equation/matcher lemmas and the helpers of non-vacuity examples are audited for axioms
+        # like everything else but are not property theorems: they are not counted as obligations
+        auto = re.search(r"\.(?:eq_\d+|eq_def|eq_unfold|match_\d+|proof_\d+|sizeOf_spec|injEq|inj|induct(?:_unfolding)?|"
+                         r"fun_cases(?:_unfolding)?|congr_simp)$", m.group(1)) or ".Example." in m.group(1)
+        thms[m.group(1)] = ([a.strip() for a in m.group(2).split(",") if a.strip()], bool(auto))
     return p.returncode == 0, thms, out
+
+
+def load_expected_theorems(pid):
+    p = os.path.join(VERIF, "tools", "expected_theorems.json")
+    try:
+        with open(p) as f:
+            return json.load(f).get(pid, [])
+    except (OSError, ValueError):
+        return []
 
 
 def load_known():
@@ -225,7 +264,7 @@ def load_known():
 
 def write_json(path, obj):
     os.makedirs(os.path.dirname(path), exist_ok=True)
-    tmp = path + ".tmp"
+    tmp = "%s.%d.tmp" % (path, os.getpid())
     with open(tmp, "w") as f:
         json.dump(obj, f, indent=1, sort_keys=True, default=str)
         f.write("\n")
@@ -246,7 +285,10 @@ def run_check(prop, tier, seed):
                 status = json.load(f)
         except Exception:  # noqa
             status = {}
-        for fname in getattr(prop, "GEN", ["Brine.lean"]):
+        gen_files = set(getattr(prop, "GEN", ["Brine.lean"]))
+        gen_files |= set(os.path.basename(f) for f in import_closure(prop.LEAN_MODULE)
+                         if os.sep + "Gen" + os.sep in f)      # every generated file the theorems really import
+        for fname in sorted(gen_files):
             st = status.get(fname, "missing")
             if st != "ok":
                 broken.append("translator: %s: %s" % (fname, st[:300]))
@@ -266,24 +308,38 @@ def run_check(prop, tier, seed):
         if not ok_audit or not thms:
             print("INFRASTRUCTURE: audit failed:\n" + audit_out[-2000:])
             return 2
-        for name, axs in thms.items():
+        for name, (axs, _auto) in thms.items():
             axioms_seen.update(axs)
             bad = [a for a in axs if a not in STD_AXIOMS]
             if bad:
                 broken.append("axioms: %s depends on %s" % (name, bad))
-        obligations = sorted(thms)
-        discharged = len(thms)
-        ctx.log("proofs: %d theorems in %s re-checked; axioms %s" % (discharged, prop.NAMESPACE, sorted(axioms_seen)))
+        obligations = sorted(n for n, (_a, auto) in thms.items() if not auto)
+        discharged = len(obligations)
+        # a theorem that was there when the expected list was committed and is gone now is a broken obligation
+        # (renaming or deleting a theorem must be a visible act: tools/update_expected_theorems.py)
+        expected = load_expected_theorems(prop.ID)
+        missing = [n for n in expected if n not in thms]
+        for n in missing:
+            broken.append("proof: theorem %s is listed in tools/expected_theorems.json but no longer exists" % n)
+        ctx.log("proofs: %d theorems in %s re-checked (%d generated lemmas audited besides); axioms %s"
+                % (discharged, prop.NAMESPACE, len(thms) - discharged, sorted(axioms_seen)))
     else:
         errs = errors_to_theorems(build_out)
         if not errs:
             print("INFRASTRUCTURE: lake build failed without a located error:\n" + build_out[-3000:])
             return 2
+        # an error located outside the property's own sources (its import closure, which contains the generated
+        # constants) is not about this property: a driver or an unrelated module does not compile -> infrastructure
+        own = set(os.path.relpath(f, LEAN_DIR) for f in import_closure(prop.LEAN_MODULE))
+        located = re.findall(r"error: (\S+\.lean):\d+:\d+", build_out)
+        if located and not any(f in own for f in located):
+            print("INFRASTRUCTURE: lake build failed outside this property's sources (%s):\n%s"
+                  % (", ".join(sorted(set(located))), build_out[-2000:]))
+            return 2
         broken.extend("proof: " + e for e in errs)
-        failed = set(e.split(":")[1].split(" ")[0] for e in errs)
-        discharged = len([o for o in obligations if o not in failed])
+        discharged = 0          # nothing was re-checked to the end: the build stopped
         ctx.log("proofs: build FAILED; broken: %s" % "; ".join(errs)[:600])
-    hits = grep_forbidden(prop.LEAN_MODULE)
+    hits = grep_forbidden(prop.LEAN_MODULE, getattr(prop, "DRIVERS", ["drv_brine"]))
     if hits:
         broken.append("forbidden tokens in model sources: %s" % hits[:5])
     if tier == "thorough" and ok_build:
@@ -364,12 +420,12 @@ def run_check(prop, tier, seed):
     wall = time.time() - ctx.t0
     coverage = dict(
         obligations=max(len(obligations), 1), discharged=discharged,
-        checker_cmd="cd lean && lake build %s && lake env lean .lake/audit/%s.lean  # kernel re-check + #print-axioms audit of every theorem in %s"
-                    % (prop.LEAN_MODULE, prop.NAMESPACE.replace(".", "_"), prop.NAMESPACE),
+        checker_cmd="cd lean && lake build %s  # kernel re-check; then an audit command generated per run (harness/pipeline.py AUDIT_TEMPLATE) lists collectAxioms of every theorem in %s"
+                    % (prop.LEAN_MODULE, prop.NAMESPACE),
         trusted_base=["Lean 4.33.0 kernel", "axioms found by the audit: %s" % sorted(axioms_seen),
                       "harness/gen_consts.py (constants translator)", "correspondence harness + lean/Driver (text parser/printer)"]
                      + list(prop.TRUSTED),
-        theorems=sorted(thms) if thms else obligations,
+        theorems=obligations, generated_lemmas_audited=sorted(n for n, (_a, auto) in thms.items() if auto),
         evaluations=corr.evaluations, distinct_nontrivial=len(corr.signatures), rule=corr.rule,
         samples=corr.samples[:12], distribution=corr.distribution,
         disagreements_checked=len(corr.disagreements), broken=broken,
